@@ -97,8 +97,19 @@ package keeper
 //@ ensures [def] result <==> height - k.GetLastTransmissionBlockHeight(ctx).Height >= k.GetBlocksPerDistributionTransmission(ctx)
 //@ ensures [pure] S == old(S) && E == old(E) && X == old(X)
 
-//@ func Keeper.SendRewardsToProvider modular trusted
+//@ func Keeper.AllowedRewardDenoms pure
+//@ ensures [frame] S == old(S) && E == old(E) && X == old(X)
+
+//@ func Keeper.SendRewardsToProvider modular
 //@ writes nothing
+//@ let ch := old(k.channelKeeper.GetChannel(ctx, transfertypes.PortID, k.GetDistributionTransmissionChannel(ctx)))
+//@ ensures [closed-channel-sends-nothing] !ch.1 || ch.0.State != channeltypes.OPEN ==> result == nil && E == old(E) && X == old(X)
+//@ loop 1 invariant [store-kept] S == old(S)
+//@ loop 1 step [zero-balance-sends-nothing] balance.IsZero() ==> E == prev(E) && X == prev(X)
+//@ loop 1 step [sends-whole-balance] !balance.IsZero() ==> packetTransfer.Token == balance
+//@ loop 1 step [over-the-transfer-channel] !balance.IsZero() ==> packetTransfer.SourcePort == transfertypes.PortID && packetTransfer.SourceChannel == sourceChannelID
+//@ loop 1 step [to-the-provider-pool] !balance.IsZero() ==> packetTransfer.Receiver == providerAddr && packetTransfer.Memo == rewardMemo
+//@ loop 1 step [from-the-to-provider-account] !balance.IsZero() ==> packetTransfer.Sender == toSendToProviderAddr.String()
 
 //@ func Keeper.EndBlockRD
 //@ precall SendRewardsToProvider [fresh-cache] sameworld($SendRewardsToProvider.ctx, ctx)
